@@ -17,6 +17,7 @@ class RuleRun:
         self.blocks = []     # dict(fn, short, cls, file, line, ok, text, tag)
         self.views = []      # dict(fn, short, cls, file, line, k, host, view, view_type, view_const, host_const, tag)
         self.exempt_notes = []
+        self.shapes = []     # per function: exit shape of outputs / returned local (written + exactly-zero masks)
         self.tags = []
 
 
@@ -34,6 +35,9 @@ def run(specs):
             rr.functions.append((F.tag, f["name"], f["short"], f.get("cls"), r.counts["opt_params"]))
             for k, c in r.counts.items():
                 rr.counts[k] += c
+            if r.exit_shape or r.ret_local:
+                rr.shapes.append(dict(tag=F.tag, fn=f["name"], short=f["short"], cls=f.get("cls"), clsargs=f.get("clsargs"),
+                                      file=f["file"], line=f["line"], outs=r.exit_shape, ret=r.ret_local))
             rr.exempt_notes += r.exempt_notes
             for (rule, what, msg, ln) in r.findings:
                 rr.items.append(dict(rule=rule, file=f["file"], line=ln, fn=f["name"], short=f["short"],
